@@ -74,6 +74,17 @@ PROPS = {
         text="Every mapped boundary is compared with the exact rational value of the affine map; order preservation and length scaling are checked on all pairs.",
         note="Trusted: math/big, rapid.",
         design="5/C15"),
+    "C01": P(
+        "TestC01", "exploration",
+        "read: case = (ground-truth SubRip model, rendering); model = 0..8 cues (1 in 25: 40..120 cues so the document crosses the 4096-byte scanner buffer), times on the ms grid in [0,100h), 1..3 lines, 1..3 runs with style subset of {b,i,u,colour}, Unicode text classes (ASCII, punctuation incl. & < >, Latin, CJK, RTL, combining, non-BMP, controls, NBSP, tag/entity look-alikes); "
+        "rendering = EOL LF/CRLF/CR, BOM, index present/absent/non-numeric/wrong, 1..3 blank lines, 0..3 at EOF, final EOL, ',' or '.', 1-3 fraction digits, padding around -->, coordinates, tag case, colour quoting, emphasis carried over runs/lines or closed per run, unterminated at cue end, entity choices. "
+        "write: case = model converted to the public types. Non-trivial = >=1 cue and >=1 rendering/styling feature (labels); distinct = hash of the rendered bytes (read) or of the model (write).",
+        ["N1-N3 of DESIGN.md: adjacent same-style runs are one run, no Unicode white space at line edges, no line terminators or '-->' inside text",
+         "the independent SubRip decoder in c01_indep_test.go (own line splitter, timing grammar, tag scanner, single-pass entity table) is correct for the writer's dialect"],
+        shards=(4, 16), technique="model-based property testing: ground-truth model x rendering -> reader compared with the model; writer output decoded by the library reader and by an independent SubRip decoder (round trip + differential)",
+        text="The expected parse result is known by construction (the harness renders the bytes itself), so reader fidelity is decided against ground truth rather than against the implementation; writer fidelity is decided by two decoders, one of them independent.",
+        note="Trusted: the renderer and the independent decoder in the harness, rapid.",
+        design="5/C01"),
 }
 
 # Properties deliberately not claimed (reason each); anything else missing from PROPS is work in progress.
